@@ -6,6 +6,15 @@ Correspondence: random op sequences (add w | sample k | len | dump | clear) on t
 against `Model/Ring.lean`.  Every field of a transition encodes its id, so a slot whose fields
 disagree shows up as MIXED.  Oracle: independent last-N reference in Python + "a batch handed out
 is never altered later" + "no duplicates in one uniform batch".
+
+Source translation (`pre_gate`, before the Lean gate): `py2lean_ring.py` translates the source text of
+`ReplayBuffer.__init__/__len__/size/add/sample/clear` (replay_buffer.py) and of
+`MultiAgentReplayBuffer.__init__/__len__/_add/save_to_memory*` (multi_agent_replay_buffer.py) of the tree
+under test into `lean/Gen/RingGen.lean`; `Proofs/RingGenEq.lean` proves the generated methods equal to the
+model functions (through `absBuf` / `absDeq`, under the representation invariant) and `Props/C09.lean`
+restates the C09 theorems over the generated definitions (`C09_source_translation_*`).  If the translator
+rejects the source or those proofs stop checking, that is a gate problem naming the broken equality; the
+op-sequence suite below then supplies the failing input if there is one.
 """
 from __future__ import annotations
 
@@ -346,6 +355,15 @@ def run_impl_ma(cap: int, kind: str, ops, case_seed: int):
 
 
 # ----------------------------------------------------------------------------- check
+def pre_gate(chk: Check) -> None:
+    """Regenerate lean/Gen/RingGen.lean from the source text of the tree under test and re-check
+    `generated = model` (Proofs/RingGenEq.lean) and the theorems over the generated definitions."""
+    import common
+    import py2lean_ring
+    common.translation_gate(chk, py2lean_ring, "Gen/RingGen.lean", ["Gen.RingGen", "Proofs.RingGenEq", "Props.C09"],
+                            "ReplayBuffer circular storage / sample / clear, MultiAgentReplayBuffer bounded deque")
+
+
 def one_case(chk: Check, which: str, cap: int, kind: str, ops, case_seed: int):
     """returns (diff index or None, problems, tags, impl_lines, model_out)"""
     runner = run_impl_single if which == "single" else run_impl_ma
@@ -410,6 +428,13 @@ def run(chk: Check) -> None:
 
 
 def stress_one(cls_name: str, cap: int, fill: int, batch: int, seed: int, w: int, n_draws: int):
+    try:
+        return _stress_one(cls_name, cap, fill, batch, seed, w, n_draws)
+    except Exception as e:  # the implementation raised on a legal sequence of additions / draws
+        return f"{cls_name}(max_size={cap}): implementation raised {type(e).__name__}: {str(e)[:200]}"
+
+
+def _stress_one(cls_name: str, cap: int, fill: int, batch: int, seed: int, w: int, n_draws: int):
     from agilerl.components.replay_buffer import MultiStepReplayBuffer, ReplayBuffer
     cls = ReplayBuffer if cls_name == "ReplayBuffer" else MultiStepReplayBuffer
     torch.manual_seed(seed)
